@@ -7,7 +7,8 @@ deep kinds, of nested results reached by index / by name) run on both sides; the
 (original, copy) are compared up to isomorphism — this includes `c._toklist is r._toklist`, shared occurrence lists,
 `d['g'] is r['g']`, and every stored position.  Value level: `__init__` (constructor combinations), from_dict.
 Property oracles on the implementation: views preserved by each copy kind; independence of the original after the
-mutations; monoid laws of + / += / sum(); from_dict round trip.
+mutations; monoid laws of + / += / sum(); from_dict round trip (asserted on every generated dict of the class `dict_ok` of
+Theorem C11_from_dict_partial; the class is evaluated by the Coq predicate and by its Python re-statement, which must agree).
 State: the tree repaired by notes/C11-fix.diff (F-03/F-11 `__getstate__`, F-05 `__init__`).
 """
 import copy as _copy
@@ -29,7 +30,7 @@ TRUSTED = ["tools/props/c11.py: encoding of the real object graph as a heap, the
 EXPLANATION = "Heap-level theorems quantify over all heaps, all results and all mutation sequences; the executable heap model is compared with real objects every run."
 
 PRE = ("From Coq Require Import List ZArith NArith Bool.\n"
-       "From PP Require Import Model.Str Model.Results Model.ResultsAPI Model.ResultsSpec Model.ResultsHeap.\n"
+       "From PP Require Import Model.Str Model.Results Model.ResultsAPI Model.ResultsSpec Model.ResultsHeap Proofs.FromDictProofs.\n"
        "Import ListNotations.\nUnset Printing Records.\n")
 COPY_KINDS = ["copy", "copycopy", "deepcopy_method", "deepcopy", "pickle"]
 DEEP = ("deepcopy", "pickle")
@@ -391,6 +392,55 @@ def random_pyval(rng, depth, nonempty=True):
                              ('l', [('l', [('i', 1)]), ('s', 'q')])]))
 
 
+def random_pyval_any(rng, depth):
+    """like random_pyval, but nested dicts may be empty and '' may be a key: leaves the class of C11_from_dict_partial"""
+    if depth > 0 and rng.random() < 0.5:
+        n = rng.randint(0, 3)
+        keys = rng.sample(['a', 'b', '', 'dd', 'e'], n)
+        return ('D', [(k, random_pyval_any(rng, depth - 1)) for k in keys])
+    return ('V', rng.choice([('s', 'v'), ('i', 0), ('n',), ('b', False), ('l', []), ('l', [('l', []), ('n',)])]))
+
+
+# the class of Theorem C11_from_dict_partial (Proofs/FromDictProofs.v `dict_ok`), re-stated on the tagged Python form; the two are
+# compared on every generated dict
+def py_value_ok(t):
+    if t[0] in ('s', 'i', 'b', 'n'):
+        return True
+    if t[0] == 'l':
+        return all(x[0] != 'pr' for x in t[1])            # elem_ok: anything but a ParseResults
+    return False
+
+
+def py_keys_ok(keys):
+    return all(k != '' for k in keys) and len(set(keys)) == len(keys)
+
+
+def py_pyval_ok(v):
+    if v[0] == 'V':
+        return py_value_ok(v[1])
+    return len(v[1]) > 0 and py_dict_ok(v)                # a nested dict: non-empty
+
+
+def py_dict_ok(d):
+    return d[0] == 'D' and py_keys_ok([k for k, _ in d[1]]) and all(py_pyval_ok(x) for _, x in d[1])
+
+
+def dec_dval(t):
+    """a `dval` printed by vm_compute -> the canonical form C.canon gives the same Python value"""
+    h = t[0]
+    if h == 'DTok':
+        return C.dec_tok(t[1])
+    if h == 'DList':
+        return ('l', [dec_dval(x) for x in t[1]])
+    if h == 'DDict':
+        return ('d', [(C.dec_str(k), dec_dval(x)) for k, x in t[1]])
+    raise ValueError("dec_dval %r" % (t,))
+
+
+def dec_ddict(l):
+    return ('d', [(C.dec_str(k), dec_dval(x)) for k, x in l])
+
+
 def value_level(ctx, starts):
     PR = C.PRcls()
     exprs, checks = [], []
@@ -406,24 +456,47 @@ def value_level(ctx, starts):
         exprs.append("(pr_init %s %s %s %s, pr_init_raises %s %s %s)" % (
             term, C.coq_opt_str(name), str(asList).lower(), str(modal).lower(), term, C.coq_opt_str(name), str(asList).lower()))
         checks.append(("init", (kind, name, asList, modal), impl))
-    # --- from_dict
+    # --- from_dict: the class of C11_from_dict_partial is evaluated on both sides; inside it the implementation must round-trip
     dicts = [('D', [])]
-    for _ in range(120 if not ctx.thorough else 600):
+    want = len(dicts) + (120 if not ctx.thorough else 600)
+    while len(dicts) < want:
         d = random_pyval(ctx.rng, 3)
         if d[0] == 'D':
             dicts.append(d)
+    want = len(dicts) + (40 if not ctx.thorough else 200)
+    while len(dicts) < want:
+        d = random_pyval_any(ctx.rng, 3)
+        if d[0] == 'D':
+            dicts.append(d)
+    dicts += [('D', [('a', ('D', []))]), ('D', [('', ('V', ('i', 1)))]), ('D', [('a', ('D', [('', ('V', ('n',)))]))])]
+    outside_roundtrips = []
     for d in dicts:
         pd = py_of_pyval(d)
         r = PR.from_dict(pd)
-        if r.as_dict() != pd:
-            ctx.violation("from_dict:" + json.dumps(d, default=str)[:200], "from_dict(d).as_dict() != d for d=%r: %r" % (pd, r.as_dict()),
-                          {"kind": "from_dict", "d": d})
-        exprs.append("from_dict [%s]" % ";".join("(%s, %s)" % (vlib.coq_str(k), coq_pyval(x)) for k, x in d[1]))
-        checks.append(("from_dict", d, C.norm(C.canon(r))))
+        inclass = py_dict_ok(d)
+        back = r.as_dict()
+        if inclass:
+            ctx.stat("from_dict_in_class")
+            if back != pd:
+                ctx.violation("from_dict:" + json.dumps(d, default=str)[:200],
+                              "from_dict(d).as_dict() != d for d=%r (in the class dict_ok of C11_from_dict_partial): %r" % (pd, back),
+                              {"kind": "from_dict", "d": d})
+        else:
+            ctx.stat("from_dict_out_of_class")
+            if back == pd:
+                outside_roundtrips.append(repr(pd))
+        D = "[%s]" % ";".join("(%s, %s)" % (vlib.coq_str(k), coq_pyval(x)) for k, x in d[1])
+        exprs.append("(from_dict %s, (dict_ok %s, ddict_of %s, as_dict (from_dict %s)))" % (D, D, D, D))
+        checks.append(("from_dict", d, (C.norm(C.canon(r)), inclass, C.norm(C.canon(pd)), C.norm(C.canon(back)))))
         ctx.stat("from_dict_cases")
     # outside the hypothesis (recorded, not violations): nested empty dict, tuple, empty key
     outside = {"nested_empty_dict": {'a': {}}, "tuple": {'a': (1, 2)}, "empty_key": {'': 1}}
     ctx.coverage_extra["from_dict_outside_hypothesis"] = {k: repr(PR.from_dict(v).as_dict()) for k, v in outside.items()}
+    ctx.coverage_extra["from_dict_class"] = {
+        "in_class": ctx.stats.get("from_dict_in_class", 0), "out_of_class": ctx.stats.get("from_dict_out_of_class", 0),
+        "out_of_class_that_round_trip_anyway": outside_roundtrips[:10]}
+    print("C11 from_dict: %d dicts in the class dict_ok (round trip asserted on the implementation), %d outside (recorded only; %d of them "
+          "round-trip anyway)" % (ctx.stats.get("from_dict_in_class", 0), ctx.stats.get("from_dict_out_of_class", 0), len(outside_roundtrips)))
     try:
         res = vlib.coq_eval_terms("c11_value", PRE, exprs, timeout=900)
     except Exception as e:
@@ -434,6 +507,13 @@ def value_level(ctx, starts):
             if what == "init":
                 st, raises = t
                 model = 'TypeError' if raises else C.norm(C.dec_pres(st))
+            elif what == "from_dict":
+                st, (m_ok, m_expected, m_asdict) = t
+                # model state vs implementation state; Coq dict_ok vs the Python re-statement; `ddict_of d` vs d itself;
+                # model as_dict vs implementation as_dict (types and key order included)
+                model = (C.norm(C.dec_pres(st)), m_ok, C.norm(dec_ddict(m_expected)), C.norm(dec_ddict(m_asdict)))
+                if m_ok and model[3] != model[2]:
+                    ctx.broken("theorem:C11_from_dict_partial the model does not round-trip on the in-class dict %r" % (key,))
             else:
                 model = C.norm(C.dec_pres(t))
             ok = model == impl
